@@ -196,6 +196,28 @@ fn check_cell(a: &Option<J>, b: &Option<J>, fa: Form, fb: Form, alt: u32, obs: &
         }
         let got = lib_truth(&q, &doc, obs)?;
         truth[i] = got;
+        // the same cell on a Queryable type that keeps integers and floats apart (integers answer
+        // only to as_i64): "numbers by mathematical value whether stored as integer or float"
+        if matches!(fa, Form::RelDot | Form::Literal | Form::AbsRoot) && matches!(fb, Form::RelDot | Form::Literal | Form::AbsRoot) && !has_escape_cell(&la, &lb) {
+            use jsonpath_rust::JsonPath;
+            let v1 = crate::vq::V1::from_j(&doc);
+            obs.eval(1);
+            let got1 = match guarded(|| v1.query_only_path(&text)) {
+                Ok(Ok(r)) => !r.is_empty(),
+                other => {
+                    return Err(Failure::new(
+                        format!("comparison fails on a second Queryable type: {:?}", other.map(|r| r.map_err(|e| e.to_string()))),
+                        json!({"query": text, "doc": doc.to_value()}),
+                    ))
+                }
+            };
+            if got1 != exp {
+                return Err(Failure::new(
+                    format!("on a Queryable type with separate integer and float variants, `{}` between {} and {} is {} but RFC 9535 2.3.5.2.2 says {}", op.text(), show(a), show(b), got1, exp),
+                    json!({"query": text, "doc": doc.to_value(), "expected": exp, "library_on_V1": got1, "library_on_Value": got}),
+                ));
+            }
+        }
         if got != exp {
             // attribution: evaluate the whole query with the reference evaluator under open quirks
             let att = attribute(ID, &got, |k| !oracle::eval(&q, &doc, k).is_empty());
@@ -379,6 +401,48 @@ fn unequal_copy(src: &mut Src, v: &J) -> Option<J> {
     };
     *t = new;
     Some(c)
+}
+
+/// a wide array or object (size at a threshold) and a few relatives: equal copies (numbers respelled
+/// int <-> float, members reordered) and copies changed in exactly one place
+pub fn gen_wide_family(src: &mut Src) -> (J, Vec<J>) {
+    let n = *src.pick(&[15usize, 16, 17, 18, 31, 32, 33, 63, 64, 65, 100, 255, 256, 257]);
+    let scalar = |src: &mut Src| -> J {
+        match src.below(6) {
+            0 => J::Int(src.range(-3, 50)),
+            1 => J::Float(src.range(-3, 50) as f64),
+            2 => J::Float(src.range(0, 9) as f64 + 0.5),
+            3 => J::Str(format!("s{}", src.below(5))),
+            4 => J::Null,
+            _ => J::Arr(vec![J::Int(src.range(0, 3)), J::Float(src.range(0, 3) as f64)]),
+        }
+    };
+    let base = if src.bool() {
+        J::Obj((0..n).map(|i| (format!("m{:03}", i), scalar(src))).collect())
+    } else {
+        J::Arr((0..n).map(|_| scalar(src)).collect())
+    };
+    let k = 1 + src.below(4);
+    let rel: Vec<J> = (0..k)
+        .map(|_| {
+            if src.bool() {
+                equal_copy(src, &base)
+            } else {
+                unequal_copy(src, &base).unwrap_or_else(|| base.clone())
+            }
+        })
+        .collect();
+    (base, rel)
+}
+
+fn random_wide(src: &mut Src, obs: &mut Obs) -> Res {
+    let (base, rel) = gen_wide_family(src);
+    let other = src.pick(&rel).clone();
+    obs.label("wide-structures");
+    let forms = [Form::RelDot, Form::AbsRoot, Form::ValueFn];
+    let fa = *src.pick(&forms);
+    let fb = *src.pick(&forms);
+    check_cell(&Some(base.sorted()), &Some(other.sorted()), fa, fb, 0, obs)
 }
 
 fn random_deep(src: &mut Src, obs: &mut Obs) -> Res {
@@ -565,6 +629,7 @@ pub fn prop() -> Prop {
         subs: vec![
             Sub { name: "table", kind: Kind::Exhaustive(table) },
             Sub { name: "table-fn-numbers", kind: Kind::Exhaustive(table_fn_numbers) },
+            Sub { name: "random-wide", kind: Kind::Random { f: random_wide, quick: 16_000, thorough: 320_000, len: 900 } },
             Sub { name: "random-deep", kind: Kind::Random { f: random_deep, quick: 100_000, thorough: 2_000_000, len: 300 } },
             Sub { name: "random-numbers", kind: Kind::Random { f: random_numbers, quick: 100_000, thorough: 2_000_000, len: 32 } },
             Sub { name: "random-escaped-names", kind: Kind::Random { f: random_escaped_names, quick: 40_000, thorough: 800_000, len: 100 } },
